@@ -21,7 +21,7 @@
 //!   honest history; canon results: the peer's own honest data), at a place where the honest run
 //!   has the same result or none, and every Unused state is one of the honest history.
 
-use air_interpreter_cid::{raw_value_to_json_cid, value_to_json_cid, CidRef, CID};
+use air_interpreter_cid::{raw_value_to_json_cid, value_to_json_cid, CID};
 use air_interpreter_data::*;
 use air_interpreter_signatures::{KeyFormat, KeyPair, PublicKey, Signature, SignatureStore};
 use air_interpreter_value::JValue;
@@ -530,6 +530,32 @@ fn apply_op(op: &J, d: &mut InterpreterData, cx: &Ctx, other_particle: Option<&I
             set_trace(d, tr);
             Some(Applied { kind: kind.into(), detail: format!("states {} and {} swapped", a.0, j), touched_own: own || own_partner, unused: false })
         }
+        "relocate_same" => {
+            // two results that only ONE of verify_call's comparisons tells apart: arg even = same stored tetraplet, different
+            // argument hash; arg odd = same argument hash, different tetraplet
+            let mut pairs: Vec<(usize, usize)> = vec![];
+            for (x, a) in targets.iter().enumerate() {
+                for b in targets.iter().skip(x + 1) {
+                    if a.2 == b.2 {
+                        continue;
+                    }
+                    let (sa, sb) = (d.cid_info.service_result_store.get(&CID::new(a.2.clone()))?, d.cid_info.service_result_store.get(&CID::new(b.2.clone()))?);
+                    let same_t = sa.tetraplet_cid == sb.tetraplet_cid;
+                    let same_h = sa.argument_hash == sb.argument_hash;
+                    if (arg % 2 == 0 && same_t && !same_h) || (arg % 2 == 1 && same_h && !same_t) {
+                        pairs.push((a.0, b.0));
+                    }
+                }
+            }
+            let (i, j) = *pairs.get(sel % pairs.len().max(1))?;
+            // the kinds stay where they are (a scalar result into a stream position is refused for another reason)
+            let mut tr = trace;
+            let (ci, cj) = (CID::new(att.iter().find(|x| x.0 == i)?.2.clone()), CID::new(att.iter().find(|x| x.0 == j)?.2.clone()));
+            tr[i] = with_cid(&tr[i], cj);
+            tr[j] = with_cid(&tr[j], ci);
+            set_trace(d, tr);
+            done(format!("results of states {} and {} exchanged ({})", i, j, if arg % 2 == 0 { "same tetraplet, other arguments" } else { "same arguments, other tetraplet" }), false)
+        }
         // ---- the kind of a state ----
         "kind_failed_executed" => {
             // Failed(c) <-> Executed(Scalar(c))
@@ -618,6 +644,21 @@ fn apply_op(op: &J, d: &mut InterpreterData, cx: &Ctx, other_particle: Option<&I
             }
             done(format!("signature of {} := signature of {}", key_name(&v[i].0), key_name(&v[j].0)), false)
         }
+        "sig_drop" => {
+            // an honest peer's signature removed (alone: PeerIdNotFound as soon as that peer has a result)
+            let mut v: Vec<(PublicKey, Signature)> = d.signatures.iter().map(|(p, s)| (p.clone(), s.clone())).collect();
+            v.sort_by_key(|a| key_name(&a.0));
+            let honest: Vec<usize> = (0..v.len()).filter(|i| key_name(&v[*i].0) != cx.attacker).collect();
+            let i = *honest.get(sel % honest.len().max(1))?;
+            let mut st = SignatureStore::new();
+            for (j, (pk, s)) in v.iter().enumerate() {
+                if j != i {
+                    st.put(pk.clone(), s.clone());
+                }
+            }
+            d.signatures = st;
+            done(format!("signature of {} dropped", key_name(&v[i].0)), false)
+        }
         "sig_attacker_signs" => {
             // the attacker signs the victim's cid list with its own key and files it under the victim's key
             let t = targets.get(sel % targets.len().max(1))?;
@@ -693,6 +734,21 @@ fn apply_op(op: &J, d: &mut InterpreterData, cx: &Ctx, other_particle: Option<&I
             set_trace(d, tr);
             done(format!("canon state {}: tetraplet peer/service -> ({},{})", t.0, nt.peer_pk, nt.service_id), false)
         }
+        "canon_usurp" => {
+            // a canon that is still pending at its designated peer, presented as canonicalized BY THE ATTACKER (its own
+            // tetraplet, which it can sign): only verify_canon's comparison with the instruction's peer refuses it
+            let ps: Vec<usize> = trace.iter().enumerate().filter(|(_, s)| matches!(s, ExecutedState::Canon(CanonResult::RequestSentBy(_)))).map(|(i, _)| i).collect();
+            let i = *ps.get(sel % ps.len().max(1))?;
+            let nt = SecurityTetraplet::new(cx.attacker.to_string(), "", "", "");
+            let tc = put_tetraplet(d, &nt)?;
+            // with arg odd: the elements of another canon result of this data, otherwise the empty stream
+            let values = if arg % 2 == 1 { d.cid_info.canon_result_store.iter().map(|(_, r)| r.values.clone()).next().unwrap_or_default() } else { vec![] };
+            let nc = put_canon_result(d, &CanonResultCidAggregate { tetraplet: tc, values })?;
+            let mut tr = trace;
+            tr[i] = ExecutedState::Canon(CanonResult::Executed(nc));
+            set_trace(d, tr);
+            done(format!("pending canon {} -> executed by the attacker", i), false)
+        }
         "canon_values" => {
             // a value dropped from / duplicated in the canonicalized stream, chain recomputed
             let t = canon_targets.get(sel % canon_targets.len().max(1))?;
@@ -763,7 +819,7 @@ struct Rec {
 fn run_history(script: &str, peers: &[String], init: usize, services: &Services, particle: &str, ops: &[Op]) -> (Net, Vec<Rec>) {
     let mut net = Net::new(script, peers, init, services.clone(), particle);
     let mut recs = vec![];
-    let mut go = |net: &mut Net, op: &Op, recs: &mut Vec<Rec>| -> bool {
+    let go = |net: &mut Net, op: &Op, recs: &mut Vec<Rec>| -> bool {
         let before = net.delivered.len();
         match net.exec(op) {
             Some(r) => {
@@ -864,27 +920,45 @@ fn genuine_of(net: &Net, recs: &[Rec]) -> Genuine {
     g
 }
 
-/// is the result `st` of data `d`, attributed to `q`, one that q produced?
-fn is_genuine(g: &Genuine, d: &InterpreterData, st: &ExecutedState, q: &str) -> Result<(), String> {
-    let (kind, cid, content) = resolved(d, st).ok_or("the state does not resolve through the stores of the new data")?;
+/// is the result `st` of data `d`, attributed to `q`, one that q produced?  Err((class, text)): class "kind" when q
+/// produced exactly this content for this request but as the OTHER kind (failure vs success), "result" otherwise
+fn is_genuine(g: &Genuine, d: &InterpreterData, st: &ExecutedState, q: &str) -> Result<(), (String, String)> {
+    let (kind, cid, content) = resolved(d, st).ok_or(("result".to_string(), "the state does not resolve through the stores of the new data".to_string()))?;
     if kind == "canon" {
         return if g.own.get(q).map(|s| s.contains(&json!([kind, cid, content]).to_string())).unwrap_or(false) {
             Ok(())
         } else {
-            Err(format!("canon result {} attributed to {} is in none of its own data", cid, q))
+            Err(("result".into(), format!("canon result {} attributed to {} is in none of its own data", cid, q)))
         };
     }
     let t = &content["tetraplet"];
     if t["lens"].as_str() != Some("") {
-        return Err(format!("call result {} has a tetraplet with a lens", cid));
+        return Err(("result".into(), format!("call result {} has a tetraplet with a lens", cid)));
     }
     let failed = kind == "failed";
-    let value = if failed { content["value"]["ret_code"].clone() } else { content["value"].clone() };
-    let key = call_key(t["service"].as_str().unwrap_or(""), t["function"].as_str().unwrap_or(""), content["arg_hash"].as_str().unwrap_or(""), failed, &value);
-    if g.calls.get(q).map(|s| s.contains(&key)).unwrap_or(false) {
-        Ok(())
-    } else {
-        Err(format!("{} call result {} attributed to {}: its host never returned this for this request: {}", kind, cid, q, key))
+    let (svc, fun, ah) = (t["service"].as_str().unwrap_or(""), t["function"].as_str().unwrap_or(""), content["arg_hash"].as_str().unwrap_or(""));
+    let as_failure = content["value"]["ret_code"].clone();
+    let as_success = content["value"].clone();
+    let key = call_key(svc, fun, ah, failed, if failed { &as_failure } else { &as_success });
+    let has = |k: &String| g.calls.get(q).map(|s| s.contains(k)).unwrap_or(false);
+    if has(&key) {
+        return Ok(());
+    }
+    let other = call_key(svc, fun, ah, !failed, if failed { &as_success } else { &as_failure });
+    if has(&other) {
+        return Err(("kind".into(), format!("{} call result {} attributed to {}: its host returned this content for this request as a {}", kind, cid, q,
+                                           if failed { "success" } else { "failure" })));
+    }
+    Err(("result".into(), format!("{} call result {} attributed to {}: its host never returned this for this request: {}", kind, cid, q, key)))
+}
+
+/// same CID, one Failed and the other Executed
+fn kind_differs(a: &ExecutedState, b: &ExecutedState) -> bool {
+    match (a, b) {
+        (ExecutedState::Call(x), ExecutedState::Call(y)) => {
+            x.get_cid().is_some() && x.get_cid() == y.get_cid() && (matches!(x, CallResult::Failed(_)) != matches!(y, CallResult::Failed(_)))
+        }
+        _ => false,
     }
 }
 
@@ -924,6 +998,9 @@ fn run_case(case: &J) -> J {
     let services = Services::from_json(&serde_json::from_str(&services_json).unwrap_or(J::Null));
     let ops = ops_from_json(&case["ops"]);
     let peer_objs: Vec<Peer> = peers.iter().map(|p| Peer::new(p)).collect();
+    if let Err(e) = air_parser::parse(&script) {
+        return json!({"error": format!("script does not parse: {}", e.chars().take(300).collect::<String>())});
+    }
 
     let (net, recs) = run_history(&script, &peers, init, &services, &particle, &ops);
     let (_net2, recs2) = run_history(&script, &peers, init, &services, &other, &ops);
@@ -942,14 +1019,25 @@ fn run_case(case: &J) -> J {
             *skipped.entry("no-delivery".into()).or_default() += 1;
             continue;
         }
-        let di = deliveries[t["delivery"].as_u64().unwrap_or(0) as usize % deliveries.len()];
-        match one_tamper(ti, t, &recs[di], if aligned { Some(&recs2[di]) } else { None }, &peer_objs, &net, &genuine, &particle, &other) {
-            Ok((term, cls, info)) => {
-                terms.push(term);
-                classes.push(cls);
-                infos.push(info);
+        // the chosen delivery, or the next one (cyclically) where at least one operation finds a target
+        let k0 = t["delivery"].as_u64().unwrap_or(0) as usize % deliveries.len();
+        let mut last = "not-applicable".to_string();
+        let mut found = false;
+        for k in 0..deliveries.len() {
+            let di = deliveries[(k0 + k) % deliveries.len()];
+            match one_tamper(ti, t, &recs[di], if aligned { Some(&recs2[di]) } else { None }, &peer_objs, &net, &genuine, &particle, &other) {
+                Ok((term, cls, info)) => {
+                    terms.push(term);
+                    classes.push(cls);
+                    infos.push(info);
+                    found = true;
+                    break;
+                }
+                Err(why) => last = why,
             }
-            Err(why) => *skipped.entry(why).or_default() += 1,
+        }
+        if !found {
+            *skipped.entry(last).or_default() += 1;
         }
     }
     let invocations: usize = net.hosts.iter().map(|h| h.log.len()).sum();
@@ -1035,9 +1123,12 @@ fn one_tamper(ti: usize, t: &J, r: &Rec, r2: Option<&Rec>, peers: &[Peer], net: 
                     match state_peer(&nt, st) {
                         None => reasons.push(("result".into(), format!("new data, state {}: does not resolve through the new data's stores", i))),
                         Some(q) if q == attacker.id => {}
+                        // what the victim itself produces in this very run (a canon at the victim over whatever it legitimately
+                        // accepted) is neither in its earlier data nor accepted from anybody
+                        Some(q) if q == victim.id && !cur.trace.iter().any(|x| same_result(x, st)) => {}
                         Some(q) => {
-                            if let Err(e) = is_genuine(genuine, &nt, st, &q) {
-                                reasons.push(("result".into(), format!("new data, state {}: {}", i, e)));
+                            if let Err((cls, e)) = is_genuine(genuine, &nt, st, &q) {
+                                reasons.push((cls, format!("new data, state {}: {}", i, e)));
                                 forged_present = true;
                             }
                         }
@@ -1046,9 +1137,10 @@ fn one_tamper(ti: usize, t: &J, r: &Rec, r2: Option<&Rec>, peers: &[Peer], net: 
                 // (B) position by position against the honest run of the same delivery
                 let honest_ok = r.rec.out.panic.is_none() && is_new_code(r.rec.out.code);
                 if let (true, Some(nh)) = (honest_ok, decode(&r.rec.out.data)) {
-                    if nh.trace.len() == nt.trace.len() {
-                        for i in 0..nh.trace.len() {
-                            let (h, tt) = (&nh.trace[i], &nt.trace[i]);
+                    let (hs, ts): (&[ExecutedState], &[ExecutedState]) = (&nh.trace, &nt.trace);
+                    if hs.len() == ts.len() {
+                        for i in 0..hs.len() {
+                            let (h, tt) = (&hs[i], &ts[i]);
                             if let Some(u) = unused_cid(tt) {
                                 if unused_cid(h).as_deref() != Some(u.as_str()) {
                                     reasons.push(("unused".into(), format!("new data, state {}: Unused({}) where the honest run has {}", i, u, state_term(h).chars().take(60).collect::<String>())));
@@ -1062,7 +1154,8 @@ fn one_tamper(ti: usize, t: &J, r: &Rec, r2: Option<&Rec>, peers: &[Peer], net: 
                                 if q != attacker.id {
                                     compared_positions += 1;
                                     if !(same_result(h, tt) || is_pending(tt)) {
-                                        reasons.push(("result".into(), format!("new data, state {}: the honest run has {}'s result {} there, the tampered run {}", i, q,
+                                        let cls = if kind_differs(h, tt) { "kind" } else { "result" };
+                                        reasons.push((cls.into(), format!("new data, state {}: the honest run has {}'s result {} there, the tampered run {}", i, q,
                                             state_term(h).chars().take(90).collect::<String>(), state_term(tt).chars().take(90).collect::<String>())));
                                         forged_present = true;
                                     }
@@ -1076,8 +1169,16 @@ fn one_tamper(ti: usize, t: &J, r: &Rec, r2: Option<&Rec>, peers: &[Peer], net: 
     }
     reasons.sort();
     reasons.dedup();
-    let only_unused = !reasons.is_empty() && reasons.iter().all(|x| x.0 == "unused") && applied.iter().any(|a| a.unused);
-    let oracle_key = if only_unused { Some("unsigned-unused-state-accepted") } else { None };
+    // failures that are exactly one of the two recorded gaps, caused by the edit that exercises it
+    let mut oracle_keys: Vec<&str> = vec![];
+    let mut unexplained = false;
+    for cls in reasons.iter().map(|x| x.0.as_str()).collect::<BTreeSet<_>>() {
+        match cls {
+            "unused" if applied.iter().any(|a| a.unused) => oracle_keys.push("unsigned-unused-state-accepted"),
+            "kind" if applied.iter().any(|a| a.kind == "kind_failed_executed") => oracle_keys.push("state-kind-not-signed"),
+            _ => unexplained = true,
+        }
+    }
 
     // ---- terms ----
     let att_p = attribution(&prev).ok();
@@ -1139,7 +1240,7 @@ fn one_tamper(ti: usize, t: &J, r: &Rec, r2: Option<&Rec>, peers: &[Peer], net: 
         "attacker": attacker.name, "victim": victim.name, "step": r.rec.step,
         "code": out.code, "panic": out.panic, "accepted": accepted, "same_as_prev": same, "msg": out.msg.chars().take(200).collect::<String>(),
         "touched_own": touched_own, "compared_positions": compared_positions, "forged_present": forged_present,
-        "oracle_ok": reasons.is_empty(), "oracle_reasons": reasons.iter().map(|x| format!("[{}] {}", x.0, x.1)).collect::<Vec<_>>(), "oracle_key": oracle_key,
+        "oracle_ok": reasons.is_empty(), "oracle_reasons": reasons.iter().map(|x| format!("[{}] {}", x.0, x.1)).collect::<Vec<_>>(), "oracle_keys": oracle_keys, "oracle_unexplained": unexplained,
         "bad_entries": bad.len(), "real_cid_info_verify": real_cid_ok, "dangling": att_c.is_none(),
         "trace_len": cur.trace.len(), "honest_code": r.rec.out.code,
         "requests": out.requests.as_ref().map(|m| m.len()), "honest_requests": r.rec.out.requests.as_ref().map(|m| m.len()),
